@@ -10,27 +10,54 @@ open Biscuit Biscuit.Wire
 theorem derive_keeps_rootKeyId (S : SigScheme) (e e' : BiscuitMsg) (op : DeriveOp)
     (hid : ∀ i, e.rootKeyId = some i → i < 2^32)
     (h : derive true S e op = .ok e') : e'.rootKeyId = e.rootKeyId := by
-  sorry
+  rcases op with ⟨block, rng⟩ | _ | _
+  · simp only [derive] at h
+    cases ha : appendEnvelopeWith true S e block rng with
+    | error r => rw [ha] at h; cases h
+    | ok p =>
+      obtain ⟨e'', rng'⟩ := p
+      rw [ha] at h
+      simp only [Except.map, Except.ok.injEq] at h
+      subst h
+      obtain ⟨_, _, _, _, _, rfl⟩ := appendEnvelopeWith_ok true S e block rng rng' e'' ha
+      rfl
+  · obtain ⟨_, _, _, rfl⟩ := sealEnvelopeWith_ok true S e e' h
+    rfl
+  · rw [derive_reload_ok true S e e' h]
+    exact normEnv_rootKeyId e hid
 
 /-- **C16, first sentence.** For every creation identifier (absent, 0, 2^32-1, any) and
 every derivation history, the derived token reports the identifier given at creation. -/
 theorem rootKeyId_invariant (S : SigScheme) (e0 e : BiscuitMsg) (ops : List DeriveOp)
     (hid : ∀ i, e0.rootKeyId = some i → i < 2^32)
     (h : deriveAll true S e0 ops = .ok e) : e.rootKeyId = e0.rootKeyId := by
-  sorry
+  induction ops generalizing e0 with
+  | nil => simp only [deriveAll, Except.ok.injEq] at h; subst h; rfl
+  | cons op ops ih =>
+    simp only [deriveAll] at h
+    cases hd : derive true S e0 op with
+    | error r => rw [hd] at h; cases h
+    | ok e1 =>
+      rw [hd] at h
+      have h1 := derive_keeps_rootKeyId S e0 e1 op hid hd
+      rw [← h1]
+      exact ih e1 (by rw [h1]; exact hid) h
 
 theorem build_reports_id (S : SigScheme) (rootSeed : Bytes) (id : Option Nat) (block : Bytes) (rng rng' : Rng)
     (e : BiscuitMsg) (h : buildEnvelope S rootSeed id block rng = .ok (e, rng')) : e.rootKeyId = id := by
-  sorry
+  obtain ⟨_, _, rfl⟩ := buildEnvelope_ok S rootSeed id block rng rng' e h
+  rfl
 
 /-- D12, pinned: `Append` and `Seal` rebuilt the envelope without the identifier. -/
 theorem pinned_append_drops_id (S : SigScheme) (e e' : BiscuitMsg) (block : Bytes) (rng rng' : Rng)
     (h : appendEnvelopeWith false S e block rng = .ok (e', rng')) : e'.rootKeyId = none := by
-  sorry
+  obtain ⟨_, _, _, _, _, rfl⟩ := appendEnvelopeWith_ok false S e block rng rng' e' h
+  rfl
 
 theorem pinned_seal_drops_id (S : SigScheme) (e e' : BiscuitMsg)
     (h : sealEnvelopeWith false S e = .ok e') : e'.rootKeyId = none := by
-  sorry
+  obtain ⟨_, _, _, rfl⟩ := sealEnvelopeWith_ok false S e e' h
+  rfl
 
 /-! Key lookup: decision logic stated outright. -/
 
@@ -40,22 +67,46 @@ theorem selectKey_none (keys : List (Nat × Bytes)) (d : Option Bytes) :
       match d with
       | some k => if k.isEmpty then .error .noKey else .ok k
       | none => .error .noKey := by
-  sorry
+  rfl
 
 /-- With identifier `i`: exactly the first key registered under `i`; never the default,
 never a key registered under another identifier. -/
 theorem selectKey_some_ok (i : Nat) (keys : List (Nat × Bytes)) (d : Option Bytes) (k : Bytes)
     (h : selectKey (some i) keys d = .ok k) : (i, k) ∈ keys ∧ k ≠ [] := by
-  sorry
+  unfold selectKey at h
+  simp only at h
+  cases hf : keys.find? (fun kv => kv.1 == i) with
+  | none => rw [hf] at h; cases h
+  | some kv =>
+    rw [hf] at h
+    simp only at h
+    by_cases he : kv.2.isEmpty = true
+    · rw [if_pos he] at h; cases h
+    · rw [if_neg he] at h
+      simp only [Except.ok.injEq] at h
+      have hmem := List.mem_of_find?_eq_some hf
+      have hp := List.find?_some hf
+      simp only [beq_iff_eq] at hp
+      obtain ⟨a, b⟩ := kv
+      simp only at hp h he
+      subst hp; subst h
+      refine ⟨hmem, ?_⟩
+      intro hnil; rw [hnil] at he; exact he rfl
 
 theorem selectKey_some_absent (i : Nat) (keys : List (Nat × Bytes)) (d : Option Bytes)
     (h : ∀ kv ∈ keys, kv.1 ≠ i) : selectKey (some i) keys d = .error .noKey := by
-  sorry
+  unfold selectKey
+  simp only
+  have : keys.find? (fun kv => kv.1 == i) = none := by
+    rw [List.find?_eq_none]
+    intro kv hkv
+    simpa using h kv hkv
+  rw [this]
 
 /-- The lookup result never depends on the default key when the token carries an identifier. -/
 theorem selectKey_ignores_default (i : Nat) (keys : List (Nat × Bytes)) (d d' : Option Bytes) :
     selectKey (some i) keys d = selectKey (some i) keys d' := by
-  sorry
+  rfl
 
 /-- The chain is verified under exactly the selected key, and a missing key surfaces as
 `noKey` before any signature is looked at. -/
@@ -65,7 +116,9 @@ theorem acceptWithKeys_uses_selected (S : SigScheme) (keys : List (Nat × Bytes)
       match selectKey e.rootKeyId keys d with
       | .error r => .error r
       | .ok k => verifyChain S k e := by
-  sorry
+  unfold acceptWithKeys
+  rw [hs]
+  cases selectKey e.rootKeyId keys d <;> rfl
 
 /-! Non-vacuity: a map with two ids and a default. -/
 def kA : Bytes := List.replicate 32 1
